@@ -85,6 +85,11 @@ def rep_case(draw, max_dim=5, max_gens=4, min_gens=1, min_dim=1, kinds=("real", 
             if r:
                 mats[i] = [[[float(x), 0.0] for x in row] for row in draw(matrix(n, "real", mf))]
         c["realgens"] = real
+    if kind == "real" and k >= 2 and draw(st.integers(0, 2)) == 0:
+        # float generators followed by an INTEGER-typed one (int64 array, unimodular):
+        # rep.dtype then says int64 although the images are not integral
+        mats[-1] = [[float(x) for x in row] for row in draw(gen.unimodular_int_matrix(n, 4, 2))]
+        c["intlast"] = True
     return c
 
 
@@ -144,6 +149,8 @@ def build(case, cls=None, names=None, **kw):
         M = decode(m, case["kind"], case.get("intdtype", False))
         if case.get("realgens") and case["realgens"][len(mats)]:
             M = np.real(M).astype(float)
+        if case.get("intlast") and len(mats) == len(case["mats"]) - 1:
+            M = np.rint(M).astype(np.int64)
         rep[name] = M.copy()
         L.assign(name, M)
         mats.append(M)
